@@ -59,6 +59,14 @@ pub fn reserve_strategy() -> impl Strategy<Value = (u8, u128, u128)> {
                 }
             }
             let frac = |f: u64, round: bool| if round { 0 } else { (f as u128) % d };
+            if over >= 18 {
+                // binary-granular pools: the quote reserve is a multiple of 2^32 / 2^64 (all low words zero; together with
+                // amounts of the same granularity every intermediate keeps them zero), deeper than 10^10 units at times
+                let shift = if over == 19 { 64 } else { 32 };
+                let x = ((mx * (1 + ex as u128)) << shift).max(d);
+                let y = d * 10u128.pow(ey % 4) * my + frac(fy, fy % 5 != 4);
+                return (dec, x, y);
+            }
             let x = d * 10u128.pow(ex) * mx + frac(fx, fx % 5 == 0);
             let y = d * 10u128.pow(ey) * my + frac(fy, fy % 5 == 0);
             (dec, x, y)
@@ -68,7 +76,7 @@ pub fn reserve_strategy() -> impl Strategy<Value = (u8, u128, u128)> {
 
 pub fn swap_strategy() -> impl Strategy<Value = SwapOp> {
     // flat tuple, no unions (see ops::op_strategy)
-    (any::<bool>(), any::<bool>(), 0u8..8, any::<u32>(), 0u8..8, 0u8..4, any::<u16>(), 0u8..5, any::<bool>(), 0u8..41).prop_map(
+    (any::<bool>(), any::<bool>(), 0u8..9, any::<u32>(), 0u8..8, 0u8..4, any::<u16>(), 0u8..5, any::<bool>(), 0u8..41).prop_map(
         |(input, add, class, k, limit_mode, r, rk, nb, over, adm)| SwapOp {
             input,
             add,
@@ -110,6 +118,8 @@ pub fn amount(op: &SwapOp, st: &StateResponse, d: u128) -> u128 {
         4 => r.saturating_sub(k % 3),
         5 => r.saturating_add(1 + k % 1000),
         6 => d * (1 + k % 100),
+        // amounts of binary granularity (multiples of 2^32 / 2^64)
+        8 => (1 + k % 100) << (if (k >> 8) % 2 == 0 { 64 } else { 32 }),
         _ => r / (2 + k % 50) + k % d.max(1),
     }
 }
